@@ -404,6 +404,15 @@ def run(ses, rep):
             rep.add(oid, status, v)
 
 
+def fallback(rep):
+    """kernels undecided: the thread-count replays are run; only a failing concrete oracle is reported"""
+    for kind, fn_ in (("state", replay_state), ("jobs", replay_jobs)):
+        v, rec = fn_()
+        if v:
+            rep.add(f"battery/{kind}", rep.violation({"obligation": "battery-after-undecided-kernel", "scenario": kind}, {"what": "kernel undecided; thread-count replay", "observed": v,
+                                                                                                                      "replay_kind": kind, **(rec if isinstance(rec, dict) else {})}), v)
+
+
 def replay(path):
     d = json.load(open(path))
     if d["replay"].get("replay_kind") == "jobs":
